@@ -450,6 +450,8 @@ def run(ctx: C.Ctx):
     dist["rows_where_real_parser_disagrees_with_python"] = sorted(n for n, ok in row_real_agrees.items() if not ok)
     dist["rows_guarded_in_model"] = sorted(model_guarded)
     dist["rgb_on_keyword_fix_landed_flag"] = flag
+    dist["rows_with_unobserved_parameters"] = {n: [p[0] for p in r["sig"] if p[0] not in r["device_params"]]
+                                                for n, r in rows.items() if any(p[0] not in r["device_params"] for p in r["sig"])}
 
     # ---------------- known findings: replay the listed witnesses on the real parser
     for f in findings:
